@@ -22,6 +22,7 @@ def streams(tier, seed):
     env.use_repo()
     ipa = []
     IPA_ERRORS.clear()
+    pairwise_ipa.GLUE_ERRORS.clear()
     for _ in range(150 if tier == "quick" else 4000):
         h = pairwise_ipa.gen_history(rng)
         try:
@@ -49,6 +50,13 @@ def main(tier, seed, prop=PROP, prop_bits=PROP_BITS):
                            "calls (valid non-empty sequences, supported modes)", "error": err, "traceback": tb,
                            "history": h}, no_input=False)
         total_prop += len(IPA_ERRORS)
+        # Pairwise.align vs calign.align_pairs with the requested parameters: for C01 this is the tie between the
+        # IPA-level entry point and the modelled core (the alignment may still be valid)
+        for e in pairwise_ipa.GLUE_ERRORS[:3]:
+            run.violation(dict(e, stream="pairwise_ipa_histories", kind="Pairwise.align does not return what "
+                               "calign.align_pairs returns for the requested parameters (documented defaults for "
+                               "omitted keywords)", no_longer_checks="correspondence Pairwise.align / calign.align_pairs"),
+                          no_input=True)
         for name, comp, ctype, cfn, cases in all_streams:
             st = driver.run_stream(run, comp, cases, d, name, ctype, cfn, prop_bits)
             total_prop += st["prop_fail"] + st["impl_errors"]
@@ -75,8 +83,8 @@ def main(tier, seed, prop=PROP, prop_bits=PROP_BITS):
         "is exact",
         "modelled, not verified: the 8 _calign functions + align_pair, the 4 _talign functions + align_pair, _malign "
         "nw_align/sw_align/we_align/edit_dist/restricted_edit_dist; theorems: C01_calign, C01_talign, C01_nw_align, "
-        "C01_sw_align (we_align: correspondence + checker only); Pairwise.align/class2tokens is covered by property C14's "
-        "class2tokens theorem and not re-run here"]
+        "C01_sw_align, C01_we_align, C01_pairwise_ipa_level; Pairwise.align is tied to calign.align_pairs by an exact "
+        "implementation-to-implementation comparison (same code path, requested parameters, documented defaults)"]
     run.assumptions += ["alphabet does not contain the gap symbol '-' (the Python encodes gaps as '-')",
                         "float comparisons on the grid coincide with exact rational comparisons"]
     return run.finish()
